@@ -87,7 +87,16 @@ func verifC07x(tableLen, colLen, textLen, fmtSet int, mode string, quoteOnly boo
 	id := schema.NewIntColumn("id", "integer")
 	c := schema.NewStringColumn(cname, "text")
 	// the default as an HCL document gives it: the raw text, quoted by the planner
-	c.SetDefault(&schema.Literal{V: def})
+	defV := def
+	if textLen > 0 && fmtSet == 0 && verifChoice("default-double-quoted", 2) == 1 {
+		// the default as a document may also give it: a double-quoted literal (well formed: no
+		// double quote, backslash or line break inside)
+		for i := 1; i < len(def); i++ {
+			verifAssume(verifAnd(verifAnd(def[i] != '"', def[i] != '\\'), verifAnd(def[i] != '\n', def[i] >= ' ')))
+		}
+		defV = "\"" + def + "\""
+	}
+	c.SetDefault(&schema.Literal{V: defV})
 	_ = cmt
 	t.AddColumns(id, c).SetPrimaryKey(schema.NewPrimaryKey(id))
 	t.AddIndexes(schema.NewIndex("i" + tname).AddColumns(c))
